@@ -233,8 +233,11 @@ class SigmaFilter(SigmaRuleBase):
         #   - the "them" keyword: "1 of them"    -> "1 of PREFIX_*"
         # Sigma keywords (not, and, or, all, any, of, 1) are left unchanged.
         #
-        # The regex matches a single Sigma condition token: an optional leading `*`
-        # (wildcard prefix) or a letter, followed by alphanumerics, `*`, `_`, or `-`.
+        # The regex matches a single Sigma condition token: a maximal run of the
+        # characters the condition grammar allows in identifiers and patterns
+        # (alphanumerics, `*`, `_`, `-`).  A token must be taken as a whole also when it
+        # starts with a digit, `_` or `-` (e.g. "1st", "_internal"); otherwise the prefix
+        # would be inserted in the middle of the identifier.
         # Wildcards are only valid at the start or end of a Sigma identifier pattern
         # but this regex accepts any occurrence; the Sigma condition parser is
         # responsible for rejecting syntactically invalid patterns at parse time.
@@ -249,7 +252,7 @@ class SigmaFilter(SigmaRuleBase):
             return prefix + "_" + token
 
         filter_condition = re.sub(
-            r"[a-zA-Z*][a-zA-Z0-9*_-]*",
+            r"[a-zA-Z0-9*_-]+",
             _replace_token,
             self.filter.condition[0],
         )
